@@ -207,7 +207,7 @@ func cmdText(c, v string) string {
 			return c + " garbage"
 		case "ENABLE":
 			return "ENABLE ("
-		case "AUTHENTICATE-CANCEL", "AUTHENTICATE-X":
+		case "AUTHENTICATE-CANCEL", "AUTHENTICATE-X", "AUTHENTICATE-CONT":
 			return "AUTHENTICATE"
 		case "STATUS":
 			return "STATUS m"
@@ -227,7 +227,7 @@ func cmdText(c, v string) string {
 		return "LOGIN u p"
 	case "AUTHENTICATE":
 		return "AUTHENTICATE PLAIN AHUAcA=="
-	case "AUTHENTICATE-CANCEL":
+	case "AUTHENTICATE-CANCEL", "AUTHENTICATE-CONT":
 		return "AUTHENTICATE PLAIN"
 	case "AUTHENTICATE-X":
 		return "AUTHENTICATE XTEST eHRlc3Q="
@@ -296,6 +296,8 @@ func (p *peer) run1(ev *event) (*obs, error) {
 				switch ev.C {
 				case "AUTHENTICATE-CANCEL":
 					p.raw.Send("*\r\n")
+				case "AUTHENTICATE-CONT":
+					p.raw.Send("AHUAcA==\r\n")
 				case "IDLE":
 					p.raw.Send("DONE\r\n")
 				}
@@ -593,7 +595,7 @@ func cmdOne(path string) {
 	out.Summary(map[string]interface{}{"behaviours": 1, "steps": steps})
 }
 
-var allCmds = []string{"NOOP", "CHECK", "LOGOUT", "CAPABILITY", "STARTTLS", "LOGIN", "AUTHENTICATE", "AUTHENTICATE-CANCEL", "AUTHENTICATE-X",
+var allCmds = []string{"NOOP", "CHECK", "LOGOUT", "CAPABILITY", "STARTTLS", "LOGIN", "AUTHENTICATE", "AUTHENTICATE-CANCEL", "AUTHENTICATE-X", "AUTHENTICATE-CONT",
 	"ENABLE", "CREATE", "DELETE", "RENAME", "SUBSCRIBE", "UNSUBSCRIBE", "STATUS", "LIST", "LSUB", "NAMESPACE", "IDLE",
 	"SELECT", "EXAMINE", "APPEND", "UNAUTHENTICATE", "CLOSE", "UNSELECT", "EXPUNGE", "UID EXPUNGE", "FETCH", "UID FETCH",
 	"STORE", "UID STORE", "COPY", "UID COPY", "MOVE", "UID MOVE", "SEARCH", "UID SEARCH", "XUNKNOWN"}
